@@ -658,7 +658,47 @@ pub fn run_case(case: &J, enc2: bool) -> CaseOut {
         ev["aux_exit"] = json!(true);
     }
     let mut plan_out = vec![];
-    for e in plan.iter() {
+    let mut k = 0usize;
+    while k < plan.len() {
+        let e = &plan[k];
+        // a function-level probe through a FunctionModifier followed by entries "mod_at_chained": all of them go
+        // through ONE modifier (func_entry()/func_exit(); inject; then inject_at ... ; finish_instr at the very end)
+        let n_chain = plan[k + 1..].iter().take_while(|x| x["api"] == "mod_at_chained").count();
+        if n_chain > 0 && e["api"] == "mod" && (e["mode"] == "func_entry" || e["mode"] == "func_exit") {
+            let group: Vec<J> = plan[k..=k + n_chain].to_vec();
+            let r = guarded(|| {
+                let conv = |c: &J| -> Vec<Operator<'static>> {
+                    c.as_array().cloned().unwrap_or_default().iter()
+                        .map(|i| instr_to_op(i, 0, &|r| if r == 0 { wasmparser::BlockType::Empty } else { wasmparser::BlockType::Type(wasmparser::ValType::I32) }))
+                        .collect()
+                };
+                let mut fm = h.m().functions.get_fn_modifier(FunctionID(F_LOCAL)).expect("no function modifier");
+                if group[0]["mode"] == "func_entry" {
+                    fm.func_entry();
+                } else {
+                    fm.func_exit();
+                }
+                fm.inject_all(&conv(&group[0]["code"]));
+                for g in group[1..].iter() {
+                    let m = mode_of(g["mode"].as_str().unwrap_or("")).expect("chained entries use plain modes");
+                    for op in conv(&g["code"]) {
+                        fm.inject_at(g["site"].as_u64().unwrap_or(0) as usize, m, op);
+                    }
+                }
+                fm.finish_instr();
+            });
+            for g in group.iter() {
+                let mut pe = g.clone();
+                pe["acc"] = json!(r.is_ok());
+                if let Err(m) = &r {
+                    pe["msg"] = json!(m);
+                }
+                plan_out.push(pe);
+            }
+            k += n_chain + 1;
+            continue;
+        }
+        k += 1;
         let mut pe = e.clone();
         match inject_one(&mut h, e) {
             Ok(()) => pe["acc"] = json!(true),
